@@ -119,6 +119,14 @@ std::string normalise(std::string s) {
       while (i < s.size() && isxdigit((unsigned char)s[i])) ++i;
       continue;
     }
+    if (s.compare(i, 5, "(pid=") == 0) {
+      size_t j = i + 5;
+      while (j < s.size() && isdigit((unsigned char)s[j])) ++j;
+      if (j < s.size() && s[j] == ')') {
+        i = j + 1;
+        continue;
+      }
+    }
     if (s.compare(i, 2, "==") == 0 && i + 2 < s.size() && isdigit((unsigned char)s[i + 2])) {
       size_t j = i + 2;
       while (j < s.size() && isdigit((unsigned char)s[j])) ++j;
@@ -787,6 +795,43 @@ int batchMain(int argc, char **argv) {
   for (int s = 0; s < cfg.workers; ++s) spawn(s);
   int alive = cfg.workers;
   long long respawns = 0;
+  // ---- aggregation (on the fly: only runs that need a second look are kept) ----
+  Counters stats;
+  std::set<uint64_t> traceHashes, stateHashes, schedHashes;
+  long long executed = 0, invalid = 0, crashedRuns = 0, nondetRuns = 0, nontrivial = 0;
+  std::map<std::string, long long> otherProps;
+  std::vector<long long> candidates;
+  std::map<std::string, long long> unattributed;
+  std::vector<std::string> hashDump;
+  const std::string evalKey = "oracle_evals_" + cfg.prop;
+  auto absorb = [&](long long idx, const ExecResult &res, bool nondet) {
+    ++executed;
+    if (nondet) ++nondetRuns;
+    if (!cfg.dumpHashes.empty()) hashDump.push_back(std::to_string(idx) + " " + hex64(res.traceHash) + " " + std::to_string(res.verdicts.size()));
+    if (res.invalidPlan) {
+      ++invalid;
+      return;
+    }
+    stats.merge(res.stats);
+    bool fresh = traceHashes.insert(res.traceHash).second;
+    if (stateHashes.size() < 2000000)
+      for (auto h : res.stateHashes) stateHashes.insert(h);
+    for (auto h : res.schedHashes) schedHashes.insert(h);
+    if (fresh && res.stats.get(evalKey) > 0) ++nontrivial;
+    bool mine = false;
+    for (auto &v : res.verdicts) {
+      if (v.prop == cfg.prop) mine = true;
+      else otherProps[v.prop + ":" + v.clause]++;
+    }
+    if (mine) {
+      RunRecord &rr = recs[idx];
+      rr.done = true;
+      rr.res = res;
+      rr.res.stats = Counters();
+      rr.res.stateHashes.clear();
+      candidates.push_back(idx);
+    }
+  };
   auto handleLine = [&](Worker &w, const std::string &line) {
     if (line.size() >= 2 && line[0] == 'B' && line[1] == '\t') {
       w.current = atoll(line.c_str() + 2);
@@ -805,10 +850,7 @@ int batchMain(int argc, char **argv) {
       return;
     }
     if (line.size() >= 2 && line[0] == 'E' && line[1] == '\t') {
-      RunRecord &rr = recs[w.resultIdx];
-      rr.done = true;
-      rr.res = w.partial;
-      rr.nondet = w.nondet;
+      absorb(w.resultIdx, w.partial, w.nondet);
       w.inResult = false;
       w.current = -1;
       return;
@@ -879,52 +921,25 @@ int batchMain(int argc, char **argv) {
   }
   double tRun = nowSec() - t0;
 
-  // ---- aggregate ----
-  Counters stats;
-  std::set<uint64_t> traceHashes, stateHashes, schedHashes;
-  long long executed = 0, invalid = 0, crashedRuns = 0, nondetRuns = 0, nontrivial = 0;
-  std::map<std::string, long long> otherProps;
-  std::vector<long long> candidates;
-  std::map<std::string, long long> unattributed;
-  const std::string evalKey = "oracle_evals_" + cfg.prop;
+  // ---- crashed runs ----
   for (auto &kv : recs) {
     RunRecord &rr = kv.second;
-    if (rr.crashed) {
-      ++crashedRuns;
-      ++executed;
-      RunSpec rs = runSpec(cfg, kv.first);
-      Plan plan = generatePlan(rs.profile, rs.seed, cfg.tier);
-      Verdict v;
-      if (crashVerdict(cfg.prop, plan, rr.crash, v)) candidates.push_back(kv.first);
-      else unattributed[rr.crash.key()]++;
-      continue;
-    }
-    if (!rr.done) continue;
+    if (!rr.crashed) continue;
+    ++crashedRuns;
     ++executed;
-    if (rr.nondet) ++nondetRuns;
-    if (rr.res.invalidPlan) {
-      ++invalid;
-      continue;
-    }
-    stats.merge(rr.res.stats);
-    bool fresh = traceHashes.insert(rr.res.traceHash).second;
-    for (auto h : rr.res.stateHashes) stateHashes.insert(h);
-    for (auto h : rr.res.schedHashes) schedHashes.insert(h);
-    if (fresh && rr.res.stats.get(evalKey) > 0) ++nontrivial;
-    bool mine = false;
-    for (auto &v : rr.res.verdicts) {
-      if (v.prop == cfg.prop) mine = true;
-      else otherProps[v.prop + ":" + v.clause]++;
-    }
-    if (mine) candidates.push_back(kv.first);
+    if (!cfg.dumpHashes.empty()) hashDump.push_back(std::to_string(kv.first) + " crash " + rr.crash.key());
+    RunSpec rs = runSpec(cfg, kv.first);
+    Plan plan = generatePlan(rs.profile, rs.seed, cfg.tier);
+    Verdict v;
+    if (crashVerdict(cfg.prop, plan, rr.crash, v)) candidates.push_back(kv.first);
+    else unattributed[rr.crash.key()]++;
   }
+  std::sort(candidates.begin(), candidates.end());
 
   if (!cfg.dumpHashes.empty()) {
+    std::sort(hashDump.begin(), hashDump.end(), [](const std::string &x, const std::string &y) { return atoll(x.c_str()) < atoll(y.c_str()); });
     std::ofstream dh(cfg.dumpHashes);
-    for (auto &kv : recs) {
-      if (kv.second.crashed) dh << kv.first << " crash " << kv.second.crash.key() << "\n";
-      else if (kv.second.done) dh << kv.first << " " << hex64(kv.second.res.traceHash) << " " << kv.second.res.verdicts.size() << "\n";
-    }
+    for (auto &l : hashDump) dh << l << "\n";
   }
   // ---- violations: gate, known findings, minimise, replay files ----
   int harnessProblems = 0;
